@@ -65,3 +65,39 @@ def engine_batch(target, batch, timeout=600):
 
 def finish(rep, detail):
     print(json.dumps({"reproduced": rep, "detail": detail}))
+
+
+def run_search(rel_pyx, target, inputs, to_engine_args, oracle, compiled_call=None, label=None):
+    """guided concrete search: run `inputs` through the compiled function (if the
+    module still matches the .pyx text and `compiled_call` is given) and through
+    the text extracted from the current source; `oracle(input, outcome)` returns a
+    failure description or None.  outcome = {"outcome": "return"|"raise", "value",
+    "exception", "args_after", "failed_safety_obligations"}"""
+    label = label or target.split("::")[1]
+    details = []
+    if compiled_call is not None:
+        sync, checked, bad = compiled_in_sync(rel_pyx)
+        if sync:
+            for inp in inputs:
+                try:
+                    out = {"outcome": "return", **compiled_call(inp)}
+                except Exception as e:
+                    out = {"outcome": "raise", "exception": type(e).__name__}
+                f = oracle(inp, out)
+                if f:
+                    return True, f"compiled {label} on {inp}: {f}"
+            details.append(f"compiled {label} (in sync with the .pyx): {len(inputs)} inputs agree with the contract")
+        else:
+            details.append(f"compiled module is stale w.r.t. {rel_pyx} (lines {bad[:5]}): verdict concerns the source text")
+    outs = engine_batch(target, [{"args": to_engine_args(inp)} for inp in inputs])
+    for inp, o in zip(inputs, outs):
+        if o.get("outcome") in ("unsupported", "engine-error"):
+            details.append(f"extracted text not executable concretely: {o.get('error')}")
+            return False, "; ".join(details)
+        if o.get("failed_safety_obligations") or o.get("outcome") == "undefined-behaviour":
+            return True, f"extracted {label} on {inp}: undefined behaviour {o.get('failed_safety_obligations')}"
+        f = oracle(inp, o)
+        if f:
+            return True, f"extracted {label} on {inp}: {f}"
+    details.append(f"extracted {label}: {len(inputs)} inputs agree with the contract")
+    return False, "; ".join(details)
